@@ -370,14 +370,14 @@ def concurrent_part(spec, part):
 
 def plan(tier, seed):
     specs = []
-    n = 8 if tier == "quick" else 48
+    n = 8 if tier == "quick" else 96
     for i in range(n):
         for framings in (["rtu"], ["tcp"], ["aa55"]):
             specs.append({"mode": "direct", "seed": f"{seed}:C01:{i}:{framings[0]}", "framings": framings,
                           "n_per": 6 if tier == "quick" else 40, "havoc": 30 if tier == "quick" else 120})
-    for i in range(4 if tier == "quick" else 16):
-        specs.append({"mode": "transport", "seed": f"{seed}:C01:T:{i}", "n": 500 if tier == "quick" else 5000})
-    specs.append({"mode": "concurrent", "seed": f"{seed}:C01:C", "n": 150 if tier == "quick" else 1500})
+    for i in range(4 if tier == "quick" else 32):
+        specs.append({"mode": "transport", "seed": f"{seed}:C01:T:{i}", "n": 500 if tier == "quick" else 8000})
+    specs.append({"mode": "concurrent", "seed": f"{seed}:C01:C", "n": 150 if tier == "quick" else 6000})
     return specs
 
 
